@@ -256,4 +256,9 @@ theorem tie_pick_received (r : Nat) :
   simp only [Consts.dispatchOrder, pick, Gen.SocketTask_chain, revOf]
   repeat' split
   all_goals simp_all [toTask]
+/-- ... and that chain is the order the model's theorems are about: readable before writable before error -/
+theorem tie_chain_order (r : Nat) : toTask (Gen.SocketTask_chain r false) = pick [0, 1, 2] (revOf r) := by
+  simp only [pick, Gen.SocketTask_chain, revOf]
+  repeat' split
+  all_goals simp_all [toTask]
 end SockModel.Props.C03
